@@ -289,7 +289,11 @@ CalleeTriples == <<
   <<WTup(<<WInt, WInt>>), WTup(<<WStr, WInt>>), TupE(<<S(<<97>>), I(1)>>)>>,
   <<WInt, WMulti(<<WInt, WStr>>), S(<<97>>)>>,
   <<WArr(StV(WInt)), WArr(StV(WStr)), ArrE(<<StructE(<< <<"v", S(<<97>>)>> >>)>>)>>,
-  <<WFn(<<>>, WInt), WFn(<<>>, WStr), FnE(<<>>, WStr, <<Ret(S(<<97>>))>>)>> >>
+  <<WFn(<<>>, WInt), WFn(<<>>, WStr), FnE(<<>>, WStr, <<Ret(S(<<97>>))>>)>>,
+  \* cells are invariant: a `mut int' cell is not a `mut (int|float)' cell (the wider member would store a float in it)
+  <<WMut(WMulti(<<WInt, WFloat>>)), WMut(WInt), MutE(WInt, I(1))>>,
+  <<WArr(WMut(WMulti(<<WInt, WStr>>))), WArr(WMut(WInt)), ArrE(<<MutE(WInt, I(1))>>)>>,
+  <<StV(WMut(WMulti(<<WInt, WFloat>>))), StV(WMut(WInt)), StructE(<< <<"v", MutE(WInt, I(1))>> >>)>> >>
 NegCallee(i, how) ==
   LET t == CalleeTriples[i]
       uty == WMulti(<<WFn(<<t[1]>>, WInt), WFn(<<t[2]>>, WInt)>>) IN
